@@ -237,6 +237,13 @@ func tAfterName(c context, s []byte) (context, int) {
 		c.state = stateTag
 		return c, i
 	}
+	if strings.Trim(c.attr.name, "/") == "" {
+		// e.g. `<a /="x">`: a "/" is not an attribute name; for an HTML parser the "=" starts one.
+		return context{
+			state: stateError,
+			err:   errorf(ErrBadHTML, nil, 0, `"=" after "/" in a tag: %.32q`, s),
+		}, len(s)
+	}
 	c.state = stateBeforeValue
 	// Consume the "=".
 	return c, i + 1
